@@ -5,6 +5,7 @@ import (
 	"os"
 	"path/filepath"
 	"strconv"
+	"strings"
 	"sync"
 	"time"
 
@@ -139,6 +140,11 @@ var slotSeq int
 // caseSlot hands out a fresh /24 per case inside the shard's /16 so that
 // goroutines left over from earlier cases talk to dead addresses.
 func caseSlot() int {
+	if slotSeq == 0 {
+		// start at a per-process offset so that two checks running at the
+		// same time rarely meet on the same loopback addresses
+		slotSeq = envInt("VERIF_SLOT", (os.Getpid()*37)%250+1) - 1
+	}
 	slotSeq++
 	return (slotSeq-1)%250 + 1
 }
@@ -171,13 +177,31 @@ func NewStack(rf, nNodes int, size int64) (*Stack, error) {
 		controller.WithRF(rf),
 		controller.WithClusterIP(""),
 	)
-	for i := 0; i < nNodes; i++ {
-		n, err := NewNode(fmt.Sprintf("n%d", i), nodeIP(st.slot, i), nodeDir(base, i), size, st.Fast)
-		if err != nil {
+	for attempt := 0; ; attempt++ {
+		var err error
+		st.Nodes = nil
+		for i := 0; i < nNodes; i++ {
+			var n *Node
+			n, err = NewNode(fmt.Sprintf("n%d", i), nodeIP(st.slot, i), nodeDir(base, i), size, st.Fast)
+			if err != nil {
+				break
+			}
+			st.Nodes = append(st.Nodes, n)
+		}
+		if err == nil {
+			break
+		}
+		for _, n := range st.Nodes {
+			n.Shutdown()
+		}
+		if attempt >= 20 || !strings.Contains(err.Error(), "address already in use") {
 			st.Destroy()
 			return nil, err
 		}
-		st.Nodes = append(st.Nodes, n)
+		// another check is using this /24: move on
+		os.RemoveAll(base)
+		os.MkdirAll(base, 0700)
+		st.slot = caseSlot()
 	}
 	return st, nil
 }
